@@ -54,13 +54,14 @@ def run_one(m):
 
 def main():
     args = sys.argv[1:]
-    prop = name = None
+    prop = name = audit = None
     jobs = 4
     i = 0
     while i < len(args):
         if args[i] == "--prop": prop = args[i+1]; i += 2
         elif args[i] == "--name": name = args[i+1]; i += 2
         elif args[i] == "-j": jobs = int(args[i+1]); i += 2
+        elif args[i] == "--audit-evidence": audit = args[i+1]; i += 2
         else: i += 1
     ms = [m for m in load() if (not prop or m["prop"] == prop) and (not name or name in m["name"])]
     bad = 0
@@ -71,6 +72,25 @@ def main():
             results.append({"name": m["name"], "prop": m["prop"], "kind": m.get("kind", "must-fail"), "status": status, "detail": msg})
             if status in ("MISSED", "FALSE-ALARM", "STALE"):
                 bad += 1
+    if audit:
+        # thorough tier of a property check: the must-fail corpus of that property as a strength audit of its contracts.
+        # Never changes the verdict of the check (a missed mutant is a weak contract, not a violated property; on a
+        # changed tree some mutants do not apply any more: stale).
+        summary = {"rule": "every must-fail mutant of this property (a deliberate property-breaking change, applied through an overlay) has to fail a named obligation; must-pass edits have to stay green",
+                   "mutants": len(results),
+                   "caught": sum(1 for r in results if r["status"] in ("OK", "OK-OTHER") and r["kind"] == "must-fail"),
+                   "must_pass_green": sum(1 for r in results if r["status"] == "OK" and r["kind"] != "must-fail"),
+                   "stale": [r["name"] for r in results if r["status"] == "STALE"],
+                   "missed": [r["name"] for r in results if r["status"] == "MISSED"],
+                   "false_alarms": [r["name"] for r in results if r["status"] == "FALSE-ALARM"]}
+        try:
+            ev = json.load(open(audit))
+            ev.setdefault("coverage", {})["contract_strength_audit"] = summary
+            json.dump(ev, open(audit, "w"), indent=1)
+        except Exception as e:
+            print("audit: cannot update evidence:", e)
+        print("SELFTEST property=%s mutants=%d caught=%d stale=%d missed=%s false_alarms=%s" % (prop, summary["mutants"], summary["caught"], len(summary["stale"]), summary["missed"], summary["false_alarms"]))
+        sys.exit(0)
     json.dump(results, open(os.path.join(VERIF, "selftest", "last_results.json"), "w"), indent=1)
     if not prop and not name:
         # every non-trusted contract must be verified by some check
